@@ -4,6 +4,7 @@
   reproducibility is a non-interference statement.
 -/
 import SifVerif.Proofs.CreateWF
+import SifVerif.Proofs.Plan
 namespace Sif.C12
 
 variable (sha : Bytes → Bytes) (ph : Bytes → Option Bytes)
@@ -198,5 +199,64 @@ theorem C12_stays_deterministic (s : Img) (op : Op) (now : Int) (hd : s.isDeterm
         · simp only at h
           simp only [h2, Bool.false_eq_true, ↓reduceIte]
           rw [h]; simp [Img.isDeterministic, hdet, hr t ht]
+
+/-- the operation carries the default or the deterministic option (no explicit time, not a reload) -/
+def plainOpt (op : Op) : Prop := topt op = some .dflt ∨ topt op = some .det
+
+/-- a deterministic image stays deterministic under every such operation — accepted, rejected, or
+    cut short by the store -/
+theorem C12_step_deterministic (s : Img) (op : Op) (now : Int) (hd : s.isDeterministic = true)
+    (hop : plainOpt op) : (step sha ph s op now).1.isDeterministic = true := by
+  have hnr : op ≠ .reload := by
+    intro h; subst h; rcases hop with h | h <;> simp [topt] at h
+  have hstep : (step sha ph s op now).1.h = (plan sha ph s op now).2.1.h := by
+    cases op with
+    | reload => exact absurd rfl hnr
+    | _ =>
+      simp only [step, runPlan]
+      split <;> rfl
+  have hkey : (plan sha ph s op now).2.1.isDeterministic = true := by
+    by_cases hok : (plan sha ph s op now).2.2 = .ok
+    · apply C12_stays_deterministic sha ph s op now hd _ hok
+      rcases hop with h | h <;> rw [h] <;> trivial
+    · rw [(plan_shape sha ph s op now).1 hok]; exact hd
+  unfold Img.isDeterministic at hkey ⊢
+  rw [hstep]; exact hkey
+
+/-- **a deterministic image and default/deterministic options: reproducible with no hypothesis on
+    any state**.  From an image with nil ID and zero times (what `OptCreateDeterministic` makes:
+    `C12_create_det_option`), any history of operations none of which names an explicit time gives
+    the same handle and byte-identical contents whatever the clock reads at each step, and the
+    image is deterministic at the end. -/
+theorem C12_deterministic_history (s : Img) (ops : List Op) (c1 c2 : List Int)
+    (hd : s.isDeterministic = true) (hops : ∀ op ∈ ops, plainOpt op) :
+    runClock sha ph s ops c1 = runClock sha ph s ops c2 ∧
+    (runClock sha ph s ops c1).st.buf = (runClock sha ph s ops c2).st.buf ∧
+    (runClock sha ph s ops c1).isDeterministic = true := by
+  have hcf : ∀ (s : Img) (ops : List Op) (c : List Int), s.isDeterministic = true →
+      (∀ op ∈ ops, plainOpt op) → ClockFreeHist sha ph s ops c ∧ (runClock sha ph s ops c).isDeterministic = true := by
+    intro s ops
+    induction ops generalizing s with
+    | nil => intro c hd _; cases c <;> exact ⟨trivial, hd⟩
+    | cons op ops ih =>
+      intro c hd hops
+      have hop := hops op (by simp)
+      have hcf1 : clockFree s op := by
+        unfold clockFree
+        rcases hop with h | h <;> rw [h]
+        · exact hd
+        · trivial
+      cases c with
+      | nil =>
+        obtain ⟨a, b⟩ := ih (step sha ph s op 0).1 [] (C12_step_deterministic sha ph s op 0 hd hop)
+          (fun x hx => hops x (by simp [hx]))
+        exact ⟨⟨hcf1, a⟩, b⟩
+      | cons n ns =>
+        obtain ⟨a, b⟩ := ih (step sha ph s op n).1 ns (C12_step_deterministic sha ph s op n hd hop)
+          (fun x hx => hops x (by simp [hx]))
+        exact ⟨⟨hcf1, a⟩, b⟩
+  obtain ⟨h1, h2⟩ := hcf s ops c1 hd hops
+  obtain ⟨e1, e2⟩ := C12_noninterference sha ph s ops c1 c2 h1
+  exact ⟨e1, e2, h2⟩
 
 end Sif.C12
